@@ -624,8 +624,12 @@ func runC16Concurrent(rc *RunCtx) {
 		slowDisk = true
 		res.Probe("contended-slow-store-scenario")
 	}
+	cleaner := !contended && ch.Pick("cleaner", 2, 1) == 1
+	if cleaner {
+		res.Probe("housekeeping-client-scenario")
+	}
 	kindName := map[bool]string{true: "mutable", false: "immutable"}[mutable]
-	res.Config = fmt.Sprintf("concurrent kind=%s clients=%d faults=%v slowDisk=%v contendedSlowStore=%v", kindName, nClients, faulty, slowDisk, contended)
+	res.Config = fmt.Sprintf("concurrent kind=%s clients=%d faults=%v slowDisk=%v contendedSlowStore=%v housekeepingClient=%v", kindName, nClients, faulty, slowDisk, contended, cleaner)
 	var sim *Sim
 	var w *cacheWorld
 	overlap := false
@@ -662,6 +666,13 @@ func runC16Concurrent(rc *RunCtx) {
 				}
 				continue
 			}
+			if cleaner && i == nClients-1 {
+				// a housekeeping client: it only cleans the entry, again and again, for as long as the others work
+				for j := 0; j < 60; j++ {
+					scripts[i] = append(scripts[i], step{act: 2, pause: []time.Duration{time.Millisecond, 3 * time.Millisecond, 9 * time.Millisecond}[ch.Intn("cleanpause", 3)]})
+				}
+				continue
+			}
 			n := 1 + ch.Intn("nops", 3)
 			for j := 0; j < n; j++ {
 				scripts[i] = append(scripts[i], step{act: ch.Pick("act", 4, 4, 2, 2), shape: ch.Intn("shape", len(c16Shapes)), pause: []time.Duration{0, 3 * time.Millisecond, 60 * time.Millisecond}[ch.Intn("pause", 3)]})
@@ -690,6 +701,7 @@ func runC16Concurrent(rc *RunCtx) {
 		}
 		var wg sync.WaitGroup
 		inflight := 0
+		workersDone := 0
 		for i, cl := range clients {
 			cl, script := cl, scripts[i]
 			wg.Add(1)
@@ -697,9 +709,15 @@ func runC16Concurrent(rc *RunCtx) {
 				defer wg.Done()
 				// tasks start together: let the scheduler, not the Go runtime, decide who goes first
 				sim.Yield(cl.id, "start")
+				if !(cleaner && cl.id == nClients) {
+					defer func() { workersDone++ }()
+				}
 				for _, st := range script {
 					if cl.dead {
 						return
+					}
+					if cleaner && cl.id == nClients && workersDone >= nClients-1 {
+						return // nobody left to keep house for
 					}
 					if st.delay > 0 {
 						time.Sleep(st.delay)
